@@ -34,7 +34,7 @@ def unescape_variants(body: str) -> list[str]:
     return out
 
 
-def consume(tokens: list[str], bodies: list[str], allow_escape: bool = True):
+def consume(tokens: list[str], bodies: list[str], allow_escape: bool = True, first_line_escape: bool = False):
     """Assign the splitter's tokens (of the whole input) to the emitted lines, in order.
     A line must be a run of consecutive tokens joined by single spaces; the first token of a
     continuation line may carry a protecting backslash. Returns (ok, first bad line,
@@ -48,7 +48,7 @@ def consume(tokens: list[str], bodies: list[str], allow_escape: bool = True):
             escaped.append(False)
             continue
         hit = None
-        for vi, cand in enumerate(unescape_variants(b) if (i > 0 and allow_escape) else [b]):
+        for vi, cand in enumerate(unescape_variants(b) if ((i > 0 or first_line_escape) and allow_escape) else [b]):
             acc = ""
             k = pos
             while k < len(tokens) and len(acc) < len(cand):
@@ -85,7 +85,7 @@ def strip_indents(lines: list[str], ii: str, si: str) -> tuple[list[str] | None,
 
 def judge(text: str, lines: list[str], width: int, ii: str, si: str, *, fill: bool,
           first_col: int | None = None, check_indent: bool = True, one_line_segments: int | None = None,
-          fill_width: int | None = None, allow_escape: bool = True):
+          fill_width: int | None = None, allow_escape: bool = True, first_line_escape: bool = False):
     """text: what the wrapper was given (one segment: no hard breaks / tag newlines);
     lines: emitted lines including indents; width: configured width.
     first_col: column at which the first line starts if different from len(ii).
@@ -106,12 +106,12 @@ def judge(text: str, lines: list[str], width: int, ii: str, si: str, *, fill: bo
         return dev
     split = get_html_md_word_splitter()
     tokens = [norm(t) for t in split(S)]
-    ok, bad, toks, esc = consume(tokens, nb, allow_escape)
+    ok, bad, toks, esc = consume(tokens, nb, allow_escape, first_line_escape)
     if not ok:
         # The wrapper may have cut inside what the splitter treats as one token (semantic mode
         # splits sentences on plain whitespace; C06 judges that). Losslessness is then decided on
         # plain whitespace words, and breakability per emitted line.
-        ok, bad, toks, esc = consume(S.split(" "), nb, allow_escape)
+        ok, bad, toks, esc = consume(S.split(" "), nb, allow_escape, first_line_escape)
         if ok:
             toks = [[norm(t) for t in split(b)] for b in nb]
     if not ok:
